@@ -24,6 +24,7 @@ pub fn encode(input: &[u8], ecl: ECL, mode: Mode, version: Version) -> CompactQR
     let cci_bits = hardcode::cci_bits(version, mode);
 
     let mut compact = CompactQR::from_version(version);
+    verif_point!("encode:allocated");
 
     match mode {
         Mode::Numeric => encode_numeric(&mut compact, input, cci_bits),
@@ -31,11 +32,15 @@ pub fn encode(input: &[u8], ecl: ECL, mode: Mode, version: Version) -> CompactQR
         Mode::Byte => encode_byte(&mut compact, input, cci_bits),
     };
 
+    verif_point!("encode:segment");
     let data_bits = hardcode::data_bits(version, ecl);
 
     add_terminator(&mut compact, data_bits);
+    verif_point!("encode:terminated");
     pad_to_8(&mut compact);
+    verif_point!("encode:padded8");
     compact.fill();
+    verif_point!("encode:filled");
 
     compact
 }
